@@ -18,7 +18,7 @@ func Harness_C02_envelope() {
 	ch := newVerifChan(s.mu, true)
 	s.Start(ch)
 
-	class := nondetChoice("record", 9)
+	class := nondetChoice("record", 11)
 	var rec json.RawMessage
 	wantCode := 0
 	wantArray := false
@@ -42,6 +42,41 @@ func Harness_C02_envelope() {
 		k := tokKind(rec)
 		assume(k != tkObject && k != tkArray && k != tkInvalid)
 		wantCode = -32700
+	}
+	if class >= 9 {
+		// a rejected member ahead of two valid ones: each valid member still
+		// runs and is answered (a call) or runs silently (a notification)
+		var bad json.RawMessage
+		if nondetBool("bad-is-scalar") {
+			bad = nondetToken("scalar-first")
+			k := tokKind(bad)
+			assume(k != tkObject && k != tkInvalid && k != tkArray)
+		} else {
+			bad = tokObject([]string{"jsonrpc", "id", "method"}, []json.RawMessage{tokString("1.0"), tokLit("4"), tokString("ping")})
+		}
+		last := verifReq("6", "ping")
+		want := 3
+		if class == 10 {
+			last = verifReq("", "ping")
+			want = 2
+		}
+		ch.in <- tokArray([]json.RawMessage{bad, verifReq("5", "ping"), last})
+		quiesce()
+		vassert(len(ch.sent) == 1 && log.count("ping") == 2, "C02: every valid member of a batch that starts with a rejected member runs its handler")
+		out, ok := tokParse(ch.sent[0])
+		elems, isArr := tokElems(out)
+		vassert(ok && isArr && len(elems) == want, "C02: one response per call and per rejected member")
+		for _, e := range elems {
+			_, hasRes := tokMember(e, "result")
+			_, hasErr := tokMember(e, "error")
+			vassert(hasRes != hasErr, "C02: each response carries exactly one of result and error")
+		}
+		ch.in <- verifReq("7", "ping")
+		quiesce()
+		vassert(len(ch.sent) == 2 && log.count("ping") == 3, "C02: the server keeps serving")
+		close(ch.in)
+		reach("rejected-first")
+		return
 	}
 	if class >= 7 {
 		// notifications that cannot be delivered (unknown method), alone or in a
